@@ -503,13 +503,20 @@ func properties() map[string]*propDef {
 			for _, sh := range [][]int{{1, 1, 1}, {3, 1, 0}, {3, 0, 1}, {2, 1, 1}, {5, 1, 1}} {
 				out = append(out, item{Harness: "H_C19_chain", Cfg: sh, Label: "container/service/route filter counts (3 and 5 container filters leave spare capacity in the filter slice)"})
 			}
+			for kind := 0; kind < 5; kind++ {
+				for router := 0; router < 2; router++ {
+					for entry := 0; entry < 2; entry++ {
+						out = append(out, item{Harness: "H_C19_conc", Cfg: []int{kind, router, entry}, Label: "two requests in flight after a warm-up request: kind (filters at three levels, CORS+OPTIONS preflights, encoded responses, entities by Accept, dynamic-routes service), router, entry"})
+					}
+				}
+			}
 			return out
 		},
 		Bounds: map[string]interface{}{"path_bytes": 12, "segments": 3, "method_bytes": 7, "requests_per_history": "2..3 on one container", "tables": nCoreTables},
-		Assumptions: append([]string{"frame monitor: every store executed while serving is classified by the allocation epoch of its target; request-vs-request concurrency is covered by the argument of DESIGN 2.7 (no store to state that outlives the request => interleavings are equivalent to a sequential order), not by exploring schedules",
+		Assumptions: append([]string{"frame monitor: every store executed while serving is classified by the allocation epoch of its target; request-vs-request concurrency is covered by the argument of DESIGN 2.7 (no store to state that outlives the request => interleavings are equivalent to a sequential order) and, for five request shapes, by the event-order race and stuck-state queries over two requests in flight (H_C19_conc; sync.Pool hands every recorded thread a new object)",
 			"natively the frame monitor's job is done by a reflection fingerprint of everything reachable from the container before and after the request"}, commonAssumptions...),
 		Rule:           "routing family: same symbolic request three times on one container (second time after scribbling on the first handler's parameters, third time with trace on); CORS/OPTIONS family: symbolic first request, then a symbolic second request compared with a fresh twin; attribute family: n identical requests through an attribute-setting filter; a frame monitor runs around the first dispatch of each",
-		RequiredCovers: []string{"invoked", "not-invoked", "preflight-granted", "served"},
+		RequiredCovers: []string{"invoked", "not-invoked", "preflight-granted", "served", "concurrent-requests"},
 	}
 	m["C13"] = &propDef{
 		ID: "C13",
